@@ -50,6 +50,10 @@ type NDOp struct {
 	Type   uint8     `json:"type,omitempty"`
 	Parent int       `json:"parent,omitempty"`
 	SameV  bool      `json:"samev,omitempty"`
+	// Ahead: the candidate is committed for the version AFTER the pending one, derived from a
+	// candidate of the pending version (which the next Finalize then has to choose): the storage
+	// layer applies the diff of round r+1 before round r is finalized.
+	Ahead bool `json:"ahead,omitempty"`
 	Writes []NDWrite `json:"w,omitempty"`
 	Choice []int     `json:"choice,omitempty"`
 }
@@ -70,6 +74,8 @@ type ndModel struct {
 	latest   uint64
 	haveAny  bool
 	start    uint64
+	// forced is the state candidate of the pending version that ahead-commits were derived from.
+	forced *mRoot
 }
 
 func (m *ndModel) pending() uint64 {
@@ -334,10 +340,25 @@ func (r *ndRun) apply(op NDOp) *core.Violation {
 		if op.Type == 2 {
 			typ = node.RootTypeIO
 		}
+		var parent *mRoot
+		ahead := false
+		if op.Ahead && typ == node.RootTypeState && !op.SameV {
+			if c := m.ofType(v, typ, false); len(c) > 0 && len(m.ofType(v+1, typ, false)) < 3 {
+				if m.forced == nil {
+					// The FIRST candidate: pathbadger accepts a batch derived from a pending non-first
+					// candidate but resolves the parent's nodes in the finalized key space (wrong
+					// contents or a panic). The property quantifies over candidates derived from the
+					// previous finalized root, so that is recorded as an observation, not generated.
+					m.forced = c[0]
+				}
+				parent, ahead = m.forced, true
+				v++
+				r.st.Inc("probe.commit_ahead_of_finalization")
+			}
+		}
 		if len(m.ofType(v, typ, false)) >= 4 {
 			return nil
 		}
-		var parent *mRoot
 		sameV := false
 		if op.SameV && len(r.k.Backends) == 1 && r.backend == "badger" {
 			if c := m.ofType(v, typ, false); len(c) > 0 {
@@ -345,7 +366,7 @@ func (r *ndRun) apply(op NDOp) *core.Violation {
 				sameV = true
 			}
 		}
-		if parent == nil && typ == node.RootTypeState && m.haveAny {
+		if parent == nil && !ahead && typ == node.RootTypeState && m.haveAny {
 			if c := m.ofType(m.latest, typ, true); len(c) > 0 {
 				parent = c[op.Parent%len(c)]
 			}
@@ -442,6 +463,11 @@ func (r *ndRun) apply(op NDOp) *core.Violation {
 			return c[x%len(c)]
 		}
 		cs := pick(0, sc)
+		if m.forced != nil {
+			cs = m.forced // later versions were already derived from this candidate
+			r.st.Inc("probe.finalize_with_children_committed_ahead")
+		}
+		m.forced = nil
 		chosen = append(chosen, cs)
 		if ic := m.ofType(v, node.RootTypeIO, false); len(ic) > 0 && (len(op.Choice) < 3 || op.Choice[2]%4 != 0) {
 			chosen = append(chosen, pick(1, ic))
@@ -654,6 +680,9 @@ func (r *ndRun) fullCheck() *core.Violation {
 	if !m.haveAny {
 		lo = hi
 	}
+	if len(m.versions[hi+1]) > 0 {
+		hi++ // candidates committed ahead of the pending version's finalization
+	}
 	listed := map[uint64]map[string]bool{}
 	for v := lo; v <= hi; v++ {
 		got, err := r.ndb.GetRootsForVersion(v)
@@ -694,6 +723,9 @@ func (r *ndRun) fullCheck() *core.Violation {
 	var readable []*mRoot
 	readable = append(readable, m.retainedFinalized()...)
 	for _, x := range m.versions[m.pending()] {
+		readable = append(readable, x)
+	}
+	for _, x := range m.versions[m.pending()+1] {
 		readable = append(readable, x)
 	}
 	var pv syncer.ProofVerifier
@@ -917,6 +949,21 @@ func (e NodeDBEngine) Generate(r *core.Rand, tier core.Tier) *core.Scenario {
 	}
 	sc := &core.Scenario{Engine: "nodedb", Knobs: core.MustJSON(k)}
 	sc.Ops = GenNodeDBHistory(r, tier, &k, nops)
+	if !e.CheckWL {
+		// Commit-ahead (own PRNG, the history is otherwise unchanged): in a third of the histories
+		// some commits go to the version after the pending one.
+		ar := core.NewRand(core.Hash64(core.MustJSON(k)) ^ 0xa4ead)
+		if ar.Chance(1, 3) {
+			for i, raw := range sc.Ops {
+				var op NDOp
+				_ = json.Unmarshal(raw, &op)
+				if op.K == "commit" && op.Type != 2 && ar.Chance(1, 3) {
+					op.Ahead, op.SameV = true, false
+					sc.Ops[i] = core.MustJSON(op)
+				}
+			}
+		}
+	}
 	if e.CheckWL {
 		// The write-log batch stays out of the territory of the C06 known findings: no
 		// same-version child roots, and I/O values never coincide with state values.
